@@ -100,7 +100,40 @@ def run(ctx):
     states += sr.distinct
     trans += sr.generated
     ssum = svcfam.run_rpc(ctx, sfiles, 1500 if ctx.quick() else 0, None if ctx.quick() else 20000)
+    # the caller against every sequence of well-formed and malformed reply frames (RpcReply.tla)
+    from vlib import tlc as _tlc
+    from vlib.common import Broken as _Broken
+    rwd = ctx.scratch("rpcreply")
+    rs = _tlc.run_tlc(rwd, "RpcReply.tla", "RpcReply_skipbad.cfg", timeout=300, workers=2, out_name="skipbad.out")
+    if rs.violated != "OkOnlyIfClean":
+        raise _Broken("RpcReply_skipbad: a caller that passes over malformed frames does not break OkOnlyIfClean: the model is vacuous")
+    nfr = 3 if ctx.quick() else 4
+    rr = _tlc.run_tlc(rwd, "RpcReply.tla", "RpcReply_%d.cfg" % nfr, timeout=900, workers=4, out_name="reply%d.out" % nfr, heap="4g")
+    _tlc.require_ok(rr, "RpcReply/%d" % nfr)
+    states += rr.distinct
+    pr = ctx.run([ctx.go_build("mreply"), "-in", rr.outfile, "-seed", str(ctx.seed)], timeout=1500)
+    if pr.returncode != 0:
+        raise _Broken("mreply failed: %s" % pr.stderr[-2000:])
+    rsum = None
+    for line in pr.stdout.splitlines():
+        d = json.loads(line)
+        if "summary" in d:
+            rsum = d["summary"]
+        elif d["sig"] == "harness":
+            raise _Broken("mreply: " + d["detail"])
+        else:
+            ctx.violation("reply:" + d["sig"], "%s | frames: %s" % (d["detail"], d["script"]), d)
+    if not rsum or (rsum["scripts"] == 0 and rsum["mismatches"] == 0):
+        raise _Broken("mreply played no scripts")
     ctx.coverage = {
+        "reply_frames": {"model": "RpcReply.tla", "sequences_replayed": rsum["scripts"], "max_frames": nfr,
+                         "rule": "every sequence of up to %d reply frames over {stream message, end marker, OK response with result, application "
+                                 "response, response without status, bytes that are no message, cut response, request, message of an undefined "
+                                 "type carrying an OK response, structurally invalid value}, written by a handler on the mpx level, read by "
+                                 "rpc.Client.Request and by a streaming caller (Receive until the stream ends, then Response); the caller's "
+                                 "observations must be the model's: OK only for an OK response with nothing malformed before it and with that "
+                                 "call's own result, a malformed frame is an rpc error that sticks, a channel that ends without response is "
+                                 "not OK; 8 calls share the connection, a well-formed call next to them stays unaffected" % nfr},
         "call_scripts": {"model": "SvcCall.tla (refines Rpc.tla, checked by TLC)", "executed": ssum["scripts"], "generated": ssum["of"],
                          "with_lost_connection": ssum.get("lost", 0),
                          "steps": ssum["steps"], "by_kind": ssum["by_kind"],
